@@ -363,6 +363,10 @@ func wideProgram(mode int) {
 		sv.Logf("n=%d form=%d: %s", n, form, why)
 	}
 	sv.Assert("bytecode-is-structurally-safe", why == "")
+	if why != "" {
+		// not executed: bytecode with, say, a backward jump may not terminate
+		return
+	}
 	a, b := sv.Float64("a"), sv.Float64("b")
 	cv := val.False
 	if sv.Bool("c") {
